@@ -123,8 +123,6 @@ Definition chk_validate (o : list N) (adj : list (N * list N)) (i : vres) : N :=
 
 (* ------------------------------------------------------------------ union-find cases *)
 
-Inductive uop := UUnion (a b : N) | UFind (a : N) | USame (a b : N).
-
 Fixpoint uf_run (m : links) (ops : list uop) : list N :=
   match ops with
   | [] => []
